@@ -469,6 +469,24 @@ def rule_header_order(ctx):
     for name in ("AmendedRequest::<Body>::headers_len", "AmendedRequest::<Body>::headers_get_all", "try_write_prelude_part"):
         ctx.check(any(u == name or u.startswith(name) for u in users), R, "consumer:" + name.split("::")[-1],
                   "%s reads the effective header iterator" % name.split("::")[-1])
+    # nobody inside the amended request looks at the stored request's own header map past that iterator: a lookup that asks the
+    # original map directly (`self.request.headers().get(..)`) does not see the fields the caller added on the flow
+    from .panics import reachable_from
+    direct = []
+    for b in prog.nonderived_bodies():
+        if "AmendedRequest" not in (b.impl_self or ""):
+            continue
+        for bb, t in b.calls():
+            if short(callee_path(t) or "").startswith("Request::<T>::headers") and not short(callee_path(t) or "").startswith("Request::<T>::headers_mut"):
+                direct.append(b.short)
+    allowed = {"AmendedRequest::<Body>::headers", "AmendedRequest::<Body>::original_request_headers"}
+    ctx.check(set(direct) <= allowed and "AmendedRequest::<Body>::headers" in direct, R, "original-map-readers",
+              "inside the amended request only the effective iterator (and the accessor that is documented to return the original fields) "
+              "reads the stored request's header map", detail=sorted(set(direct) - allowed))
+    hg = prog.find("AmendedRequest::<Body>::headers_get")
+    if hg is not None:
+        ctx.check(any(x.short == "AmendedRequest::<Body>::headers" for x in reachable_from(prog, [hg])), R, "consumer:headers_get",
+                  "headers_get reads the effective header iterator")
 
 
 def rule_host_and_framing(ctx):
@@ -593,4 +611,12 @@ def rule_added_total(ctx):
 
 from .rules_wrappers import rules_for as _rules_for
 _fw_C02 = _rules_for("C02")
-RULES = [rule_atomicity, rule_request_line, rule_header_lines, rule_overflow, rule_header_order, rule_added_total, rule_host_and_framing, rule_no_body_bytes, _fw_C02]
+def rule_redirected_request_premise(ctx):
+    """"the request's version / method / fields" of a *redirected* request are those of the caller's request: the redirect
+    hands over the stored request itself and the typestate conversions keep it (R14.6, shared)"""
+    from . import rules_redirect
+    rules_redirect.rule_request_carried_over(ctx)
+
+
+RULES = [rule_atomicity, rule_request_line, rule_header_lines, rule_overflow, rule_header_order, rule_added_total, rule_host_and_framing, rule_no_body_bytes, _fw_C02,
+         rule_redirected_request_premise]
